@@ -75,8 +75,24 @@ for _c in MON.values():
     globals()[_c.__name__] = _c
 
 
+class KeepLast(fm.Adapter):
+    """a user-style pass-through adapter that keeps its last delivered data set in an attribute called `data`"""
+
+    fin_count = 0
+
+    def _get_data(self, time, target):
+        d = self.pull_data(time, target)
+        self.data = d
+        return d
+
+    def _finalize(self):
+        self.fin_count = min(self.fin_count + 1, 3)
+
+
 def mk_adapter(tok):
     k = tok[0]
+    if k == "K":
+        return KeepLast()
     if k == "S":
         return MON[D.Scale](float(tok[1]))
     if k == "L":
